@@ -39,6 +39,9 @@
 
 using namespace UTAP;
 
+extern "C" __attribute__((weak)) unsigned long long verif_step_count();
+extern "C" __attribute__((weak)) void verif_step_reset(unsigned long long cap);
+
 // --------------------------------------------------------------------------------------------------------------
 struct Step
 {
@@ -756,7 +759,12 @@ struct Child
                 step_write_xml(w, s);
             else if (s.op == "laws")
                 step_laws(w, s);
-            else if (s.op == "tracker") {
+            else if (s.op == "steps_begin") {
+                // args: cap ; resets the logical clock (steps build only)
+                if (verif_step_reset)
+                    verif_step_reset(strtoull(s.args.at(0).c_str(), nullptr, 10));
+                w.key("have_steps").boolean(verif_step_reset != nullptr);
+            } else if (s.op == "tracker") {
                 UTAP::tracker.position = (uint32_t)strtoul(s.args.at(0).c_str(), nullptr, 10);
                 w.key("set").num((long long)UTAP::tracker.position);
             } else if (s.op == "drop") {
@@ -770,6 +778,8 @@ struct Child
                 fprintf(stderr, "driver: unknown op %s\n", s.op.c_str());
                 _exit(4);
             }
+            if (verif_step_count)
+                w.key("steps").num((long long)verif_step_count());
             w.end();
             emit(w);
         }
